@@ -94,7 +94,18 @@ def e2e_events(ctx, scenarios):
         pub = pgpy.PGPKey.from_blob(bytes(priv.pubkey))[0]      # as a verifier would hold it
         rec = {'k': 'e2e', 'expired': expired, 'scenario': sc, 'predicted': predicted}
         try:
-            if subj == 'doc':
+            if subj == 'doc-by-subkey':
+                # the signature is made by a signing subkey; the key handed to verify() is the (possibly expired / revoked) primary with its subkeys
+                from pgpy.constants import KeyFlags
+                if not priv.subkeys:
+                    priv.add_subkey(K.raw_key('ed25519', K.T0 + 20), usage={KeyFlags.Sign}, created=K.ts(K.T0 + 20))
+                    pub = pgpy.PGPKey.from_blob(bytes(priv.pubkey))[0]
+                sk_ = list(priv.subkeys.values())[0]
+                s = sk_.sign('the text', created=K.ts(K.T0 + 50))
+                res = pub.verify('the text' if sigs[0] else 'the tex7', s)
+                expected = [s]
+                wrong = [not sigs[0]]
+            elif subj == 'doc':
                 s = priv.sign('the text', created=K.ts(K.T0 + 50))
                 res = pub.verify('the text' if sigs[0] else 'the tex7', s)
                 expected = [s]
